@@ -57,3 +57,9 @@ m('c13-full-charge-group-swapped', 'mofun/atoms.py', '(i + 1, self.groups[i] + 1
 m('c13-tilt-order', 'mofun/atoms.py', '(self.cell[1,0], self.cell[2,0], self.cell[2,1]))', '(self.cell[1,0], self.cell[2,1], self.cell[2,0]))', 'C13')
 m('c13-angle-count', 'mofun/atoms.py', "f.write('%d angles\\n' % len(self.angle_types))", "f.write('%d angles\\n' % len(self.bond_types))", 'C13')
 m('c13-reader-type-col', 'mofun/atoms.py', '            atom_types = np.array(atoms[:, 2] - 1, dtype=int)\n            charges = np.array(atoms[:, 3], dtype=float)', '            atom_types = np.array(atoms[:, 2], dtype=int) - 1\n            charges = np.array(atoms[:, 3], dtype=float)', 'C13', 'pass', note='equivalent reader refactoring')
+# ---- C20
+m('c20-atol-not-wired', 'mofun/cli/mofun_cli.py', 'atoms = replace_pattern_in_structure(atoms, search_pattern, replace_pattern, atol=atol,', 'atoms = replace_pattern_in_structure(atoms, search_pattern, replace_pattern,', 'C20')
+m('c20-hints-swapped', 'mofun/cli/mofun_cli.py', 'axisp1_idx=axisp1_idx, axisp2_idx=axisp2_idx, opoint_idx=opoint_idx, replace_fraction=replace_fraction)', 'axisp1_idx=axisp2_idx, axisp2_idx=axisp1_idx, opoint_idx=opoint_idx, replace_fraction=replace_fraction)', 'C20')
+m('c20-find-atol-dropped', 'mofun/cli/mofun_cli.py', 'results = find_pattern_in_structure(atoms, search_pattern, atol=atol)', 'results = find_pattern_in_structure(atoms, search_pattern)', 'C20')
+m('c20-replace-loads-find-file', 'mofun/cli/mofun_cli.py', 'replace_pattern = Atoms.load(replace_path)', 'replace_pattern = Atoms.load(find_path)', 'C20')
+m('c20-harmless-rename', 'mofun/cli/mofun_cli.py', '        search_pattern = Atoms.load(find_path)\n        if replace_path is not None:\n            replace_pattern = Atoms.load(replace_path)\n            atoms = replace_pattern_in_structure(atoms, search_pattern, replace_pattern, atol=atol,', '        pattern_to_find = Atoms.load(find_path)\n        search_pattern = pattern_to_find\n        if replace_path is not None:\n            replace_pattern = Atoms.load(replace_path)\n            atoms = replace_pattern_in_structure(atoms, search_pattern, replace_pattern, atol=atol,', 'C20', 'pass')
